@@ -91,6 +91,21 @@ def Cfg.stackOp (c : Cfg) : Option Spec.Op :=
 def StepTo (P : Prog) (c c' : Cfg) : Prop :=
   step P c = .ok c' ∨ ∃ o, step P c = .error (o, c')
 
+/-- `c` after `countAndAct scr` has consumed its instruction (the code continues with `rest`) and
+updated the consecutive-rejections counter of `scr`: one more for a rejected line, reset otherwise -/
+def Cfg.counted (c : Cfg) (scr : Nat) (rest : List Instr) : Cfg :=
+  { c with code := rest,
+           A := c.A.setScr scr fun s => { s with err := if c.retAction = UAction.error then s.err + 1 else 0 } }
+
+/-- the consecutive-rejections counter of screen `s` after the step out of `c`: only the counting step
+of `process_input` for `s` and an input request of `s` whose prompt is `None` touch it -/
+def Cfg.errAfter (c : Cfg) (s : Nat) : Nat :=
+  match c.code with
+  | .countAndAct scr :: _ =>
+    if s = scr then (if c.retAction = UAction.error then (c.A.scr s).err + 1 else 0) else (c.A.scr s).err
+  | .getInput2 scr _ :: _ => if s = scr ∧ c.retPromptNone = true then 0 else (c.A.scr s).err
+  | _ => (c.A.scr s).err
+
 /-! ### kinds of trace and log events -/
 
 /-- scheduler events of the trace: stack operations, refreshes, draws -/
@@ -121,6 +136,29 @@ def Ev.isCb : Ev → Bool
 def Ev.isCbOf (scr : Nat) (cb : Cb) : Ev → Bool
   | .cb s b _ _ => s = scr ∧ b = cb
   | _ => false
+
+/-- invocations of a `closed` callback in the log -/
+def Ev.isClosed : Ev → Bool
+  | .cb _ .closed _ _ => true
+  | _ => false
+
+/-- stack operations named `what` in the trace -/
+def Tr.isOp (what : String) : Tr → Bool
+  | .stackOp w _ => w = what
+  | _ => false
+
+/-- What handling one answer of `input()` may do, seen from outside: `c'` is `c` with the instruction
+at the head of the code replaced by `pushed`, the rejections counter of `scr` updated, and exactly
+`renders` render requests of the scheduler added to the trace (enqueued, or dropped after a
+force-quit) — the stack, the log and every other screen's record are untouched. -/
+structure InputOutcome (c c' : Cfg) (scr : Nat) (pushed : List Instr) (renders : Nat) : Prop where
+  code : c'.code = pushed ++ c.code.tail
+  stack : c'.A.stack = c.A.stack
+  log : c'.log = c.log
+  tr : ∃ evs, c'.tr = evs ++ c.tr ∧ evs.length = renders ∧ ∀ t ∈ evs, t.isRedraw = true
+  scr : ∀ s, c'.A.scr s =
+    if s = scr then { c.A.scr s with err := if c.retAction = UAction.error then (c.A.scr s).err + 1 else 0 }
+    else c.A.scr s
 
 /-- the exception kinds a catcher instruction handles -/
 def Instr.catches : Kind → Instr → Bool
